@@ -66,6 +66,22 @@ pub fn gen(tier: &str, seed: u64) -> Vec<String> {
             cfg.push_str(&simple_action(&mut r, 0));
         }
         cfg.push_str(")\n");
+        // one configuration in four also has global overrides over the keys it can output: the
+        // override's output key belongs to the outputs of every physical key that can produce its input
+        if r.chance(1, 4) {
+            cfg.push_str("(defoverrides");
+            for _ in 0..r.range(1, 3) {
+                let m = *r.pick(&["lsft", "lctl", "ralt"]);
+                let i = *r.pick(&["q", "w", "x", "y", "z", "1", "2"]);
+                let o = *r.pick(&["q", "w", "x", "y", "z", "1", "2"]);
+                match r.below(3) {
+                    0 => cfg.push_str(&format!(" ({m} {i}) ({o})")),
+                    1 => cfg.push_str(&format!(" ({m} {i}) ({m} {o})")),
+                    _ => cfg.push_str(&format!(" ({i}) ({m} {o})")),
+                }
+            }
+            cfg.push_str(")\n");
+        }
         let keys: Vec<u16> = KEYS[..nkeys].iter().map(|k| code(k)).collect();
         let n_ev = r.range(2, 12) as usize;
         let h = consistent_history(&mut r, &keys, n_ev, &[1, 2, 3, 5, 10], 30);
